@@ -182,8 +182,8 @@ type Result struct {
 	// bookkeeping for the traversal-control relations (C15)
 	LoadPath     []string   // path (joined) at which each load happened
 	LoadSegs     [][]string // the same as segment lists
-	VisitsBefore []int    // number of visits made before each load
-	Recursed     bool     // some recursive edge was actually followed
+	VisitsBefore []int      // number of visits made before each load
+	Recursed     bool       // some recursive edge was actually followed
 }
 
 type recCtx struct {
@@ -436,6 +436,20 @@ type xform struct {
 	in  *interp
 	f   func(val.V) val.V
 	res *TransformResult
+	// keep: the transform function answers these nodes with the very node it was given ("no change"); the walk
+	// then continues below them as if they had not been matched
+	keep func(val.V) bool
+}
+
+// TransformKeeping is Transform for a function that hands back the node it was given wherever keep says so:
+// such a node counts as not replaced, and the walk goes on into its children.
+func TransformKeeping(g graph.Graph, s Sel, f func(val.V) val.V, keep func(val.V) bool) TransformResult {
+	var res TransformResult
+	var dummy Result
+	in := &interp{store: g.Store(), res: &dummy}
+	x := &xform{in: in, f: f, res: &res, keep: keep}
+	res.Relinked, res.Inlined = x.walk(g.Root, nil, in.enter(&s, nil))
+	return res
 }
 
 // Transform replaces, top-down, every node at which some active clause is a matcher by
@@ -453,6 +467,9 @@ func (x *xform) walk(node val.V, path []string, threads []thread) (val.V, val.V)
 	for _, t := range threads {
 		if t.c.K == "match" {
 			x.res.Targets = append(x.res.Targets, Visit{Path: join(path), Reason: "m", Value: node})
+			if x.keep != nil && x.keep(node) {
+				break
+			}
 			r := x.f(node)
 			return r, r
 		}
